@@ -297,7 +297,9 @@ def make_scipy(interp):
     def ppf(q=None, loc=0, scale=1):
         _use("scipy.stats.norm.ppf(q, loc, scale) = loc + scale * z_q for finite scale (z_q a function of q only, increasing, z_0.5 = 0)")
         qt = to_term(q)
-        key = qt.get_id()
+        from .values import tid
+
+        key = tid(qt)
         if key not in zq:
             z = z3.Real(fresh_name("z_q"))
             zq[key] = z
